@@ -102,7 +102,7 @@ theorem regionIdx_spec {pb : Problem} (hwf : WellFormed pb) {p : Nat × Nat} (hp
     exact ⟨b, hb, by simpa [castC] using hpb⟩
   refine ⟨pb.blocks[regionIdx pb p], List.getElem?_eq_getElem hlt, ?_⟩
   have := List.findIdx_getElem (w := hlt)
-  simpa using this
+  simpa [regionIdx] using this
 
 theorem regionIdx_lt {pb : Problem} (hwf : WellFormed pb) {p : Nat × Nat} (hp : OnB pb p) :
     regionIdx pb p < pb.blocks.length := by
